@@ -10,6 +10,7 @@ Proofs/Complete.lean — `to_complete` / `_to_complete` and `complement(minify=F
 -/
 import AutomataVerif.Proofs.ExpandValid
 import AutomataVerif.Proofs.Rename
+import AutomataVerif.Model.DFAComplement
 
 namespace AV
 namespace C04
@@ -372,13 +373,8 @@ theorem complementPlain_accepts (wf : c.WF) (hc : c.IsComplete) (w : List α) :
 
 end complement
 
-/-- `complement(minify=False)` as the code composes it (mirrors `Driver/DfaOps.lean
-dfaComplement`): complete first iff `allow_partial`, then flip the final states.  `trap` is
-the id `_get_trap_state_id()` finds (some name outside `states`). -/
-def _root_.AV.DFA.complementFull (d : DFA σ α) (trap : σ) : Res (DFA σ α) :=
-  match (if d.allowPartial then d.toComplete trap false else .ok d) with
-  | .ok C => .ok C.complementPlain
-  | .error e => .error e
+-- `DFA.complementFull` (`complement(minify=False)` as the code composes it) is defined in
+-- Model/DFAComplement.lean: the driver command DFA_COMPLEMENT executes that very definition.
 
 end C04
 end AV
